@@ -9,7 +9,11 @@ RECURSIVE Gcd(_, _)
 GcdB(a, b) == IF b = 0 THEN a ELSE Gcd(b, a % b)
 Gcd(a, b) == GcdB(a, b)   \* (body operator: TLC does not cache arguments of RECURSIVE operators)
 
+\* <<0, 0>> (denominator 0) is the absorbing NOT-A-RATIONAL value: it is produced by a
+\* division by zero or by an irrational square root and survives every operation.
+NaR == <<0, 0>>
 RNorm(n, d) ==
+  IF d = 0 THEN NaR ELSE
   LET s == IF d < 0 THEN 0 - 1 ELSE 1
       g == Gcd(Abs(n), Abs(d))
   IN IF n = 0 THEN <<0, 1>> ELSE <<(s * n) \div g, (s * d) \div g>>
@@ -17,13 +21,15 @@ R(n, d) == RNorm(n, d)
 RInt(k) == <<k, 1>>
 RNeg(q) == <<0 - q[1], q[2]>>
 RMul(p, q) ==
+  IF p[2] = 0 \/ q[2] = 0 THEN NaR ELSE
   LET g1 == Gcd(Abs(p[1]), q[2])  g2 == Gcd(Abs(q[1]), p[2])
       a == p[1] \div (IF g1 = 0 THEN 1 ELSE g1)  d == q[2] \div (IF g1 = 0 THEN 1 ELSE g1)
       c == q[1] \div (IF g2 = 0 THEN 1 ELSE g2)  b == p[2] \div (IF g2 = 0 THEN 1 ELSE g2)
   IN RNorm(a * c, b * d)
-RInv(q) == RNorm(q[2], q[1])
+RInv(q) == IF q[2] = 0 THEN NaR ELSE RNorm(q[2], q[1])
 RDiv(p, q) == RMul(p, RInv(q))
 RAdd(p, q) ==
+  IF p[2] = 0 \/ q[2] = 0 THEN NaR ELSE
   LET g == Gcd(p[2], q[2])
       pd == p[2] \div g  qd == q[2] \div g
   IN RNorm(p[1] * qd + q[1] * pd, pd * q[2])
